@@ -235,6 +235,38 @@ def seed_protos(tier, which):
             yield (label.split(":")[0], label), m
 
 
+class _WithSeed(dict):
+    """found-dict that stamps every record with the serialised seed, so that a replay needs no generator."""
+
+    def __init__(self, proto):
+        super().__init__()
+        self._hex = proto.SerializeToString().hex()
+
+    def setdefault(self, k, v):
+        if k not in self:
+            v = dict(v, seed_hex=self._hex)
+        return super().setdefault(k, v)
+
+
+def replay_history(seed_hex, history, which, oracle):
+    """Plain re-execution of a recorded pass sequence on the recorded seed (no search)."""
+    proto = onnx.ModelProto.FromString(bytes.fromhex(seed_hex))
+    outs = outputs_on_feeds(proto)
+    ins = non_initializer_inputs(proto)
+    state = ser(ir.to_proto(ir.from_proto(proto)))
+    bad = []
+    for pname in history:
+        r = apply_pass(state, pname, outs, ins)
+        if r["crash"]:
+            bad = [("pass_raises_on_valid_model", r["crash"])] if oracle.startswith("pass_raises") else []
+            break
+        bad = [c for c in r[which] if c[0] == oracle]
+        if r["new"] is None:
+            break
+        state = r["new"]
+    return (not bad), bad[:2]
+
+
 def explore_seed(desc, proto, depth, which):
     """BFS over pass sequences from one seed. Returns (n_states, n_transitions, n_modifying, found)."""
     try:
@@ -257,7 +289,7 @@ def explore_seed(desc, proto, depth, which):
     seen = {h(start)}
     frontier = [(start, ())]
     ntrans = nmod = 0
-    found = {}
+    found = _WithSeed(proto)
     for d in range(depth):
         nxt = []
         for state, path in frontier:
